@@ -6,15 +6,15 @@ NEEDS = ('rqmc', 'rq')
 
 def run(tier, seed):
     res = common.Result('model_checking')
-    args = ['5', '2', '3', '6'] if tier == 'quick' else ['7', '3', '3', '7']
+    args = ['5', '2', '3', '6', '9', '9'] if tier == 'quick' else ['7', '3', '3', '7', '9', '11']
     doc = common.run_engine_parts([common.RQMC, 'c02'] + args)
     common.merge_engine(res, doc)
     cov = res.coverage
-    cov['bounds'] = {k: doc[k] for k in ('max_file_len', 'max_context', 'max_fuzz_limit', 'hunk_shapes', 'two_hunk_files')}
+    cov['bounds'] = {k: doc[k] for k in ('max_file_len', 'max_context', 'max_fuzz_limit', 'hunk_shapes', 'two_hunk_files', 'two_hunk_long_files', 'two_hunk_long_file_len')}
     cov['outcomes'] = doc['counters']
     cov['rule'] = ('all files over {a,b} up to max_file_len lines x all hunk shapes (prefix/suffix context <= max_context, <= 2 removed, <= 2 added lines) '
                    'x stated line 1..n+3 x fuzz limit 0..3 x direction; plus two-hunk patches (first hunk derived from a file position with stated line '
-                   'off by -2..2, second hunk general) for "expected line = stated + previous offset". Oracle: clause-wise check against the brute-force '
+                   'off by -2..2, second hunk general) for "expected line = stated + previous offset", and the same on all files of two_hunk_long_file_len lines with a context-free first hunk stated where it is (room for a match of the second hunk before the first one that is nearer than the one behind: patch never looks before the lines it has written, so only the ones behind count and "misordered" is no answer when one of them is there). Oracle: clause-wise check against the brute-force '
                    'set of matching positions (nearest match, forward wins ties, start/end anchoring, lowest fuzz level, failure only when nothing matches); '
                    'ambiguous readings (position of a prefix-trimmed block, order conflicts with the previous hunk) are accepted either way. '
                    'non-trivial = the hunk applied with >= 2 matching positions at the level used, or with fuzz > 0')
